@@ -413,7 +413,7 @@ func fieldNameOf(fa *ssa.FieldAddr) string {
 		t = p.Elem()
 	}
 	if s, ok := t.Underlying().(*types.Struct); ok {
-		return s.Field(fa.Field).Name()
+		return an.FieldNameHook(s, fa.Field)
 	}
 	return ""
 }
